@@ -163,7 +163,14 @@ def run_case(tape, tier):
                     break
             elif op == "client_close":
                 c = lab.clients[i]
-                if c.cs is not None and tape.flag("clean_fin", 1, 2):
+                if c.cs is not None and tape.flag("abortive_close", 1, 3):
+                    # unread data in the client's kernel buffer: the close is a RST; the server-side socket then refuses
+                    # shutdown() with ENOTCONN and still has to be close()d
+                    raw = getattr(c.cs, "sock", c.cs)
+                    if raw.inp is not None and raw.state == "connected":
+                        raw.inp.rx.extend(b"unread")
+                    res.faults["client_abortive_close"] += 1
+                elif c.cs is not None and tape.flag("clean_fin", 1, 2):
                     # nothing unread in the client's kernel buffer: the close is a clean FIN (mid-handshake the server then
                     # sees a TLS EOF) instead of the RST a close with unread data produces
                     raw = getattr(c.cs, "sock", c.cs)
